@@ -67,7 +67,7 @@ func zzC07FromRawArbitraryExtensions() {
 
 //verif:harness C07 extension_write_arbitrary_body unwind=400 paths=200000 wall=900
 //verif:expect end
-//verif:doc Every extension type ExtensionFromID can return (all 16-bit ids, symbolic) fed an arbitrary body of every length 0..6 (quick) / 0..10 (thorough) through Write: error or success, never a panic; after a successful Write, Len and Read do not panic and agree.
+//verif:doc Every extension type ExtensionFromID can return (all 16-bit ids, symbolic) fed an arbitrary body of every length 0..6 (quick) / 0..10 (thorough) through Write: error or success, never a panic; after a successful Write, Len and Read do not panic and agree, and the encoding carries the code point the extension object was chosen for.
 func zzC07ExtensionWriteArbitrary() {
 	id := verifU16("id")
 	e := ExtensionFromID(id)
@@ -89,6 +89,10 @@ func zzC07ExtensionWriteArbitrary() {
 		buf := make([]byte, verifConcretize(l))
 		k, _ := w.Read(buf)
 		verifAssert(k == 0 || k == len(buf), "read-after-write-consistent")
+		if k >= 2 && !zzRefIsGREASE16(id) {
+			// the extension object chosen for code point id encodes as code point id
+			verifAssert(uint16(buf[0])<<8|uint16(buf[1]) == id, "extension-from-id-keeps-the-code-point")
+		}
 	}
 	verifReach("end")
 }
